@@ -160,13 +160,29 @@ def eq_compared_attrs(model: Model, fn: FuncInfo) -> Tuple[Set[str], Optional[Se
                 and isinstance(n.value, (ast.List, ast.Tuple)) \
                 and all(isinstance(e, ast.Constant) and isinstance(e.value, str) for e in n.value.elts):
             lists[n.targets[0].id] = [e.value for e in n.value.elts]
+    def names_of(e: ast.AST) -> Optional[List[str]]:
+        """the literal list / tuple / set of names e denotes (directly, through list() / tuple() / set(), or a local bound to one)"""
+        if isinstance(e, ast.Call) and isinstance(e.func, ast.Name) and e.func.id in ('list', 'tuple', 'set', 'frozenset', 'sorted') \
+                and len(e.args) == 1 and not e.keywords:
+            return names_of(e.args[0])
+        if isinstance(e, ast.Name):
+            return lists.get(e.id)
+        if isinstance(e, (ast.List, ast.Tuple, ast.Set)) and all(isinstance(x, ast.Constant) and isinstance(x.value, str) for x in e.elts):
+            return [x.value for x in e.elts]
+        return None
     for n in walk_no_nested(fn.node):
-        if isinstance(n, ast.For) and isinstance(n.iter, ast.Name) and n.iter.id in lists and isinstance(n.target, ast.Name):
+        if isinstance(n, ast.For) and isinstance(n.target, ast.Name) and not (isinstance(n.iter, ast.Name) and n.iter.id in lists) \
+                and names_of(n.iter) is not None:
+            lists['<iter@%d>' % n.lineno] = names_of(n.iter)
+            n_iter_key = '<iter@%d>' % n.lineno
+        else:
+            n_iter_key = n.iter.id if isinstance(n, ast.For) and isinstance(n.iter, ast.Name) else None
+        if isinstance(n, ast.For) and n_iter_key in lists and isinstance(n.target, ast.Name):
             uses_getattr = any(isinstance(c, ast.Call) and isinstance(c.func, ast.Name) and c.func.id == 'getattr'
                                and len(c.args) >= 2 and isinstance(c.args[1], ast.Name) and c.args[1].id == n.target.id
                                for c in ast.walk(n))
             if uses_getattr:
-                attrs.update(lists[n.iter.id])
+                attrs.update(lists[n_iter_key])
         if isinstance(n, ast.Compare):
             for side in [n.left] + list(n.comparators):
                 a = is_self_attr(side, sn)
@@ -182,8 +198,8 @@ def eq_compared_attrs(model: Model, fn: FuncInfo) -> Tuple[Set[str], Optional[Se
                     cand = next((k.value for k in n.keywords if k.arg == 'ignore_keys'), None)
                     if cand is None and len(n.args) >= 3:
                         cand = n.args[2]
-                    if isinstance(cand, ast.Name) and cand.id in lists:
-                        ignore = set(lists[cand.id])
+                    if cand is not None and names_of(cand) is not None:
+                        ignore = set(names_of(cand))
                     elif isinstance(cand, (ast.List, ast.Tuple, ast.Set)):
                         ignore = {e.value for e in cand.elts if isinstance(e, ast.Constant)}
                     elif cand is not None:
